@@ -13,7 +13,7 @@ use refmodel::eip712;
 
 const P: &str = "C16";
 const SUBS: [&str; 13] = ["address", "export", "public-key", "sign message", "sign transaction", "sign typeddata", "sign raw", "hash message", "hash transaction", "hash typeddata", "hash typeddata --message-hash", "hash data", "sign transaction --signature-only"];
-const SELECTORS: [(&str, &str); 10] = [("default", ""), ("index", "0"), ("index", "1"), ("index", "2"), ("index", "2147483647"), ("path", "m/44'/60'/0'/0/1"), ("path", "m/0"), ("path", "m/0'/1"), ("path", "m/1/2'/3/4'/5/6'/7/2147483647'"), ("index", "1000")];
+const SELECTORS: [(&str, &str); 10] = [("default", ""), ("index", "0"), ("index", "1"), ("index", "2"), ("index", "2147483647"), ("path", "m/44'/60'/0'/0/1"), ("path", "m/0"), ("path", "m/0'/1"), ("path", "m/1/2'/3/4'/5/6'/7/2147483647'/9/10'/11"), ("index", "1000")];
 const PASSES: [&str; 4] = ["", "TREZOR", "\u{e9}", "pass word"];
 const MESSAGE: &[u8] = b"hello \xff\x00 world";
 const RAW: [u8; 32] = [0x3c; 32];
